@@ -10,7 +10,9 @@ temporary files never surface.
      CrashSafe is evaluated at every prefix (= every crash point of that run);
    * the worker is re-run with `strace -e inject=<call>:signal=SIGKILL:when=k` for every k of every call class
      after the start marker; a second process reopens the tree, reads every address through 5 readers, iterates,
-     runs CleanUpTmp and reads again; log + acks + read-back form a trace validated by TraceFSTreeSys.tla."""
+     RETRIES every Put of the job on the restarted tree (no clean-up yet: leftovers of the crashed run must not leak
+     into objects), reads again, runs CleanUpTmp and reads again; log + acks + read-backs form a trace validated by
+     TraceFSTreeSys.tla."""
 import json
 import random
 
@@ -76,7 +78,9 @@ def run(ck):
     thorough = ck.tier == "thorough"
     fu.make_threadsafe(ck)
     if not ck.replay:
-        ck.tlc_model("FSTreeSysMC", "FSTreeSys_crash.cfg", timeout=2400, workers=6, deadlock=True)
+        # crash at any point; and crash + restart WITHOUT clean-up + retry of every Put (leftovers of the crashed run)
+        cfgs = ["FSTreeSys_crash.cfg", "FSTreeSys_crashretry.cfg" if thorough else "FSTreeSys_retry.cfg"]
+        fu.pmap(lambda c: ck.tlc_model("FSTreeSysMC", c, timeout=3000, workers=5, deadlock=True), cfgs, workers=2)
         ck.setcov("exhaustive", True)
         ck.setcov("constants", "2 writer threads x 5 programs (combined / batch / file / generic puts, deletes), crash at any point, CountLimit=2 SizeLimit=3")
     binp = ck.gobuild("fstree")
